@@ -43,6 +43,8 @@ pub trait G: Pod {
   const SZ: usize;
   const AL: usize;
 }
+// a constant value with a recognisable byte pattern, for the const-context must_ casts
+pub trait GP: G { const PAT: Self; }
 
 const ARENA: usize = 1024;
 const SRC0: usize = 256;
@@ -67,7 +69,12 @@ fn intact_except(lo: usize, hi: usize) -> bool {
   if !ok || lo != hi { unsafe { DIRTY = true; } }
   ok
 }
-fn canon<T>(p: *const T) -> usize { (p as usize).wrapping_sub(ar() as usize).wrapping_add(BASE) }
+// canonical address: arena-relative (+BASE) inside or near the arena; anything else is "foreign
+// memory", reported as 2^40 + (address mod 4096) so that transcripts are deterministic
+fn canon<T>(p: *const T) -> usize {
+  let d = (p as usize).wrapping_sub(ar() as usize).wrapping_add(BASE);
+  if d < BASE + ARENA + BASE { d } else { (1usize << 40) + (p as usize % 4096) }
+}
 fn hex(off: usize, n: usize) -> String {
   if n == 0 { return "-".into(); }
   (0..n).map(|i| format!("{:02x}", unsafe { *ar().add(off + i) })).collect()
@@ -217,8 +224,37 @@ fn run_slices<A: G, B: G>(maxlen: usize) {
       let (o, f) = match catch_unwind(AssertUnwindSafe(|| smo(Ok(checked::cast_slice_mut::<A, B>(muts!())), off, nbytes))) {
         Ok(x) => x, Err(p) => (panic_obs(p), ro_flags()) };
       emit(24, sa, aa, sb, ab, len, addr, 0, "-", &o, &t22, f);
+      // 15 pod_align_to / 16 pod_align_to_mut
+      fill();
+      let (p0, m0, s0) = bytemuck::pod_align_to::<A, B>(shared!());
+      let o = format!("SPLIT {} {} {} {} {} {}", canon(p0.as_ptr()), p0.len(), if m0.is_empty() { 0 } else { canon(m0.as_ptr()) }, m0.len(), if s0.is_empty() { 0 } else { canon(s0.as_ptr()) }, s0.len());
+      emit(15, sa, aa, sb, ab, len, addr, 0, "-", &o, "-", ro_flags());
+      fill();
+      let (p1, m1, s1) = bytemuck::pod_align_to_mut::<A, B>(muts!());
+      let o = format!("SPLIT {} {} {} {} {} {}", canon(p1.as_ptr()), p1.len(), if m1.is_empty() { 0 } else { canon(m1.as_ptr()) }, m1.len(), if s1.is_empty() { 0 } else { canon(s1.as_ptr()) }, s1.len());
+      let parts = [(p1.as_mut_ptr() as *mut u8, p1.len() * sa), (m1.as_mut_ptr() as *mut u8, m1.len() * sb), (s1.as_mut_ptr() as *mut u8, s1.len() * sa)];
+      let f = write_through_parts(&parts, off, nbytes);
+      emit(16, sa, aa, sb, ab, len, addr, 0, "-", &o, "-", f);
     }
   }
+}
+
+// write mark(k) to the k-th byte of the concatenation of the parts; the source occupies [off, off+nbytes)
+fn write_through_parts(parts: &[(*mut u8, usize)], off: usize, nbytes: usize) -> u32 {
+  unsafe { DIRTY = true; }
+  let mut k = 0usize;
+  let mut inside = true;
+  for &(vp, vb) in parts {
+    let voff = (vp as usize).wrapping_sub(ar() as usize);
+    for j in 0..vb {
+      let idx = voff.wrapping_add(j);
+      if idx < ARENA { unsafe { vp.add(j).write_volatile(mark(k)) } } else { inside = false; }
+      k += 1;
+    }
+  }
+  let b0 = intact_except(off, off + nbytes) && inside;
+  let b1 = k == nbytes && (0..nbytes).all(|i| unsafe { *ar().add(off + i) } == mark(i));
+  (b0 as u32) | ((b1 as u32) << 1)
 }
 
 #[inline(never)]
@@ -351,6 +387,276 @@ fn run_single<T: G>() {
   }
 }
 
+// ---- checked targets with real validity predicates (C07) ----
+pub trait CK: checked::CheckedBitPattern + bytemuck::NoUninit + Copy {
+  const KIND: u32; const SZ: usize; const AL: usize;
+  fn valid() -> Vec<u8>;
+  fn invalid() -> Vec<Vec<u8>>;
+  fn to_bytes(v: &Self) -> Vec<u8> {
+    let p = v as *const Self as *const u8;
+    (0..Self::SZ).map(|i| unsafe { *p.add(i) }).collect()
+  }
+}
+macro_rules! ck_nz { ($t:ty, $n:expr) => {
+  impl CK for $t { const KIND: u32 = 3; const SZ: usize = $n; const AL: usize = core::mem::align_of::<$t>();
+    fn valid() -> Vec<u8> { let mut v = vec![0u8; $n]; v[$n - 1] = 0x80; v }
+    fn invalid() -> Vec<Vec<u8>> { vec![vec![0u8; $n]] } }
+} }
+ck_nz!(core::num::NonZeroU8, 1); ck_nz!(core::num::NonZeroI8, 1); ck_nz!(core::num::NonZeroU16, 2); ck_nz!(core::num::NonZeroI16, 2);
+ck_nz!(core::num::NonZeroU32, 4); ck_nz!(core::num::NonZeroI32, 4); ck_nz!(core::num::NonZeroU64, 8); ck_nz!(core::num::NonZeroI64, 8);
+ck_nz!(core::num::NonZeroU128, 16); ck_nz!(core::num::NonZeroI128, 16); ck_nz!(core::num::NonZeroUsize, 8); ck_nz!(core::num::NonZeroIsize, 8);
+impl CK for bool { const KIND: u32 = 1; const SZ: usize = 1; const AL: usize = 1;
+  fn valid() -> Vec<u8> { vec![1] }
+  fn invalid() -> Vec<Vec<u8>> { vec![vec![2], vec![255], vec![0x80]] } }
+impl CK for char { const KIND: u32 = 2; const SZ: usize = 4; const AL: usize = 4;
+  fn valid() -> Vec<u8> { 0x10FFFFu32.to_le_bytes().to_vec() }
+  fn invalid() -> Vec<Vec<u8>> { vec![0xD800u32.to_le_bytes().to_vec(), 0xDFFFu32.to_le_bytes().to_vec(),
+    0x110000u32.to_le_bytes().to_vec(), 0xFFFFFFFFu32.to_le_bytes().to_vec(), 0x0100_0041u32.to_le_bytes().to_vec()] } }
+
+fn put(off: usize, b: &[u8]) { unsafe { DIRTY = true; for (i, x) in b.iter().enumerate() { *ar().add(off + i) = *x; } } }
+fn restore(off: usize, n: usize) { unsafe { for i in 0..n { *ar().add(off + i) = bg(off + i); } } }
+fn intact_with(off: usize, b: &[u8]) -> u32 {
+  let same = b.iter().enumerate().all(|(i, x)| unsafe { *ar().add(off + i) } == *x);
+  ((intact_except(off, off + b.len()) && same) as u32) | 2
+}
+fn cso<B>(r: Result<&[B], u32>) -> String { so(r) }
+
+#[inline(never)]
+fn run_checked<A: G, B: CK>(maxlen: usize) {
+  let (sa, aa, sb, ab) = (A::SZ, A::AL, B::SZ, B::AL);
+  let kind = B::KIND;
+  for r in residues(aa) {
+    for len in 0..=maxlen {
+      let off = SRC0 + r; let nbytes = len * sa; let addr = BASE + off;
+      let p = unsafe { ar().add(off) };
+      let m = if sb != 0 && nbytes % sb == 0 { nbytes / sb } else { 0 };
+      // images: all valid; exactly one invalid element at each position (each invalid pattern in turn)
+      let mut images: Vec<Vec<u8>> = vec![];
+      let mut allv = vec![]; for i in 0..nbytes { allv.push(B::valid()[i % sb.max(1)]); }
+      images.push(allv.clone());
+      let inv = B::invalid();
+      for j in 0..m { let mut im = allv.clone(); let pat = &inv[(j + len) % inv.len()]; im[j * sb..(j + 1) * sb].copy_from_slice(pat); images.push(im); }
+      if m >= 2 { let mut im = allv.clone(); for j in 0..m { im[j * sb..(j + 1) * sb].copy_from_slice(&inv[0]); } images.push(im); }
+      for im in &images {
+        let hx = hexs(im);
+        macro_rules! shared { () => { unsafe { core::slice::from_raw_parts(p as *const A, len) } } }
+        macro_rules! muts { () => { unsafe { core::slice::from_raw_parts_mut(p as *mut A, len) } } }
+        fill(); put(off, im);
+        let t21 = match checked::try_cast_slice::<A, B>(shared!()) { Ok(v) => format!("OK {} {}", canon(v.as_ptr()), v.len()), Err(e) => format!("ERR {}", ce(e)) };
+        emit(21, sa, aa, sb, ab, len, addr, kind, &hx, &t21, "-", intact_with(off, im));
+        let o = match catch_unwind(AssertUnwindSafe(|| { let v = checked::cast_slice::<A, B>(shared!()); format!("OK {} {}", canon(v.as_ptr()), v.len()) })) { Ok(s) => s, Err(p) => panic_obs(p) };
+        emit(23, sa, aa, sb, ab, len, addr, kind, &hx, &o, &t21, intact_with(off, im));
+        let t22 = match checked::try_cast_slice_mut::<A, B>(muts!()) { Ok(v) => format!("OK {} {}", canon(v.as_ptr()), v.len()), Err(e) => format!("ERR {}", ce(e)) };
+        emit(22, sa, aa, sb, ab, len, addr, kind, &hx, &t22, "-", intact_with(off, im));
+        let o = match catch_unwind(AssertUnwindSafe(|| { let v = checked::cast_slice_mut::<A, B>(muts!()); format!("OK {} {}", canon(v.as_ptr()), v.len()) })) { Ok(s) => s, Err(p) => panic_obs(p) };
+        emit(24, sa, aa, sb, ab, len, addr, kind, &hx, &o, &t22, intact_with(off, im));
+        if len == 1 {
+          let t25 = match checked::try_cast_ref::<A, B>(unsafe { &*(p as *const A) }) { Ok(v) => format!("OK {} 1", canon(v as *const B)), Err(e) => format!("ERR {}", ce(e)) };
+          emit(25, sa, aa, sb, ab, 1, addr, kind, &hx, &t25, "-", intact_with(off, im));
+          let o = match catch_unwind(AssertUnwindSafe(|| { let v = checked::cast_ref::<A, B>(unsafe { &*(p as *const A) }); format!("OK {} 1", canon(v as *const B)) })) { Ok(s) => s, Err(p) => panic_obs(p) };
+          emit(27, sa, aa, sb, ab, 1, addr, kind, &hx, &o, &t25, intact_with(off, im));
+          let t26 = match checked::try_cast_mut::<A, B>(unsafe { &mut *(p as *mut A) }) { Ok(v) => format!("OK {} 1", canon(v as *const B)), Err(e) => format!("ERR {}", ce(e)) };
+          emit(26, sa, aa, sb, ab, 1, addr, kind, &hx, &t26, "-", intact_with(off, im));
+          let o = match catch_unwind(AssertUnwindSafe(|| { let v = checked::cast_mut::<A, B>(unsafe { &mut *(p as *mut A) }); format!("OK {} 1", canon(v as *const B)) })) { Ok(s) => s, Err(p) => panic_obs(p) };
+          emit(28, sa, aa, sb, ab, 1, addr, kind, &hx, &o, &t26, intact_with(off, im));
+          // by value
+          let a: A = unsafe { core::ptr::read_unaligned(p as *const A) };
+          let tc = match checked::try_cast::<A, B>(a) { Ok(b) => format!("VAL {}", hexs(&B::to_bytes(&b))), Err(e) => format!("ERR {}", ce(e)) };
+          emit(61, sa, aa, sb, ab, 1, BASE, kind, &hx, &tc, "-", intact_with(off, im));
+          let o = match catch_unwind(AssertUnwindSafe(|| { let b = checked::cast::<A, B>(a); format!("VAL {}", hexs(&B::to_bytes(&b))) })) { Ok(s) => s, Err(p) => panic_obs(p) };
+          emit(62, sa, aa, sb, ab, 1, BASE, kind, &hx, &o, &tc, intact_with(off, im));
+        }
+        restore(off, nbytes);
+      }
+    }
+  }
+}
+
+// byte views and unaligned reads into a checked target, at every byte offset
+#[inline(never)]
+fn run_checked_single<T: CK>() {
+  let (st, at) = (T::SZ, T::AL);
+  let kind = T::KIND;
+  let mut lens = vec![0usize, st, st + 1]; if st > 0 { lens.push(st - 1); } lens.sort(); lens.dedup();
+  let mut pats = vec![T::valid()]; pats.extend(T::invalid());
+  for r in 0..16usize {
+    for &len in &lens {
+      for pat in &pats {
+        let off = SRC0 + r; let addr = BASE + off; let p = unsafe { ar().add(off) };
+        let im: Vec<u8> = (0..len).map(|i| pat[i % st.max(1)]).collect();
+        let hx = hexs(&im);
+        macro_rules! shared { () => { unsafe { core::slice::from_raw_parts(p as *const u8, len) } } }
+        macro_rules! muts { () => { unsafe { core::slice::from_raw_parts_mut(p, len) } } }
+        fill(); put(off, &im);
+        let t29 = match checked::try_from_bytes::<T>(shared!()) { Ok(v) => format!("OK {} 1", canon(v as *const T)), Err(e) => format!("ERR {}", ce(e)) };
+        emit(29, 1, 1, st, at, len, addr, kind, &hx, &t29, "-", intact_with(off, &im));
+        let o = match catch_unwind(AssertUnwindSafe(|| { let v = checked::from_bytes::<T>(shared!()); format!("OK {} 1", canon(v as *const T)) })) { Ok(s) => s, Err(p) => panic_obs(p) };
+        emit(31, 1, 1, st, at, len, addr, kind, &hx, &o, &t29, intact_with(off, &im));
+        let t30 = match checked::try_from_bytes_mut::<T>(muts!()) { Ok(v) => format!("OK {} 1", canon(v as *const T)), Err(e) => format!("ERR {}", ce(e)) };
+        emit(30, 1, 1, st, at, len, addr, kind, &hx, &t30, "-", intact_with(off, &im));
+        let o = match catch_unwind(AssertUnwindSafe(|| { let v = checked::from_bytes_mut::<T>(muts!()); format!("OK {} 1", canon(v as *const T)) })) { Ok(s) => s, Err(p) => panic_obs(p) };
+        emit(32, 1, 1, st, at, len, addr, kind, &hx, &o, &t30, intact_with(off, &im));
+        let t63 = match checked::try_pod_read_unaligned::<T>(shared!()) { Ok(v) => format!("VAL {}", hexs(&T::to_bytes(&v))), Err(e) => format!("ERR {}", ce(e)) };
+        emit(63, 1, 1, st, at, len, addr, kind, &hx, &t63, "-", intact_with(off, &im));
+        let o = match catch_unwind(AssertUnwindSafe(|| { let v = checked::pod_read_unaligned::<T>(shared!()); format!("VAL {}", hexs(&T::to_bytes(&v))) })) { Ok(s) => s, Err(p) => panic_obs(p) };
+        emit(64, 1, 1, st, at, len, addr, kind, &hx, &o, &t63, intact_with(off, &im));
+        restore(off, len);
+      }
+    }
+  }
+}
+
+// exhaustive / boundary bit patterns through the by-value casts (C03, C07)
+macro_rules! prim_g { ($($t:ty),*) => { $( impl G for $t { const SZ: usize = core::mem::size_of::<$t>(); const AL: usize = core::mem::align_of::<$t>(); } )* } }
+prim_g!(u8, i8, u16, i16, u32, i32, f32, u64, i64, f64, u128, i128, [u8; 2], [u8; 4], [u8; 8], [u8; 16], [u16; 2], [u32; 2]);
+
+fn wide_patterns(n: usize) -> Vec<Vec<u8>> {
+  let mut v: Vec<Vec<u8>> = vec![vec![0u8; n], vec![0xFFu8; n]];
+  for bit in 0..(n * 8) { let mut a = vec![0u8; n]; a[bit / 8] |= 1 << (bit % 8); v.push(a.clone()); let b: Vec<u8> = a.iter().map(|x| !x).collect(); v.push(b); }
+  // float classes (little-endian images): +-0, +-inf, quiet / signalling NaNs with distinct payloads, denormals
+  if n == 4 { for x in [0x8000_0000u32, 0x7F80_0000, 0xFF80_0000, 0x7FC0_0000, 0x7FC0_0001, 0x7FA0_0000, 0xFFC1_2345, 0x7F80_0001, 0x0000_0001, 0x807F_FFFF] { v.push(x.to_le_bytes().to_vec()); } }
+  if n == 8 { for x in [0x8000_0000_0000_0000u64, 0x7FF0_0000_0000_0000, 0xFFF0_0000_0000_0000, 0x7FF8_0000_0000_0000, 0x7FF8_0000_0000_0001, 0x7FF4_0000_0000_0000, 0xFFF8_1234_5678_9ABC, 0x7FF0_0000_0000_0001, 1, 0x800F_FFFF_FFFF_FFFF] { v.push(x.to_le_bytes().to_vec()); } }
+  let mut x: u64 = 0x9E37_79B9_7F4A_7C15 ^ (n as u64);
+  for _ in 0..24 { let mut a = vec![0u8; n]; for b in a.iter_mut() { x ^= x << 13; x ^= x >> 7; x ^= x << 17; *b = (x >> 24) as u8; } v.push(a); }
+  v
+}
+#[inline(never)]
+fn run_prim_value<A: G, B: G>(exhaustive: bool) {
+  let (sa, aa, sb, ab) = (A::SZ, A::AL, B::SZ, B::AL);
+  let pats: Vec<Vec<u8>> = if exhaustive && sa == 1 { (0..=255u8).map(|x| vec![x]).collect() }
+    else if exhaustive && sa == 2 { (0..=65535u32).map(|x| (x as u16).to_le_bytes().to_vec()).collect() }
+    else { wide_patterns(sa) };
+  for pat in &pats {
+    let a: A = unsafe { core::ptr::read_unaligned(pat.as_ptr() as *const A) };
+    let hx = hexs(pat);
+    let t = match bytemuck::try_cast::<A, B>(a) { Ok(b) => format!("VAL {}", hexs(bytemuck::bytes_of(&b))), Err(e) => format!("ERR {}", pe(e)) };
+    emit(51, sa, aa, sb, ab, 1, BASE, 0, &hx, &t, "-", 3);
+    if !exhaustive || sa == 1 {
+      let o = match catch_unwind(AssertUnwindSafe(|| { let b = bytemuck::cast::<A, B>(a); format!("VAL {}", hexs(bytemuck::bytes_of(&b))) })) { Ok(s) => s, Err(p) => panic_obs(p) };
+      emit(52, sa, aa, sb, ab, 1, BASE, 0, &hx, &o, &t, 3);
+    }
+    // and back again: the round trip returns the original bit pattern
+    if let Ok(b) = bytemuck::try_cast::<A, B>(a) {
+      let back = match bytemuck::try_cast::<B, A>(b) { Ok(a2) => format!("VAL {}", hexs(bytemuck::bytes_of(&a2))), Err(e) => format!("ERR {}", pe(e)) };
+      emit(51, sb, ab, sa, aa, 1, BASE, 0, &hx, &back, "-", 3);
+    }
+  }
+}
+#[inline(never)]
+fn run_prim_checked<A: G, B: CK>(pats: Vec<Vec<u8>>) {
+  let (sa, aa, sb, ab) = (A::SZ, A::AL, B::SZ, B::AL);
+  for pat in &pats {
+    let a: A = unsafe { core::ptr::read_unaligned(pat.as_ptr() as *const A) };
+    let hx = hexs(pat);
+    let tc = match checked::try_cast::<A, B>(a) { Ok(b) => format!("VAL {}", hexs(&B::to_bytes(&b))), Err(e) => format!("ERR {}", ce(e)) };
+    emit(61, sa, aa, sb, ab, 1, BASE, B::KIND, &hx, &tc, "-", 3);
+  }
+}
+fn all8() -> Vec<Vec<u8>> { (0..=255u8).map(|x| vec![x]).collect() }
+fn all16() -> Vec<Vec<u8>> { (0..=65535u32).map(|x| (x as u16).to_le_bytes().to_vec()).collect() }
+fn char_bounds() -> Vec<Vec<u8>> {
+  let mut v = vec![];
+  for c in [0u32, 1, 0x41, 0x7F, 0x80, 0xD7FE, 0xD7FF, 0xD800, 0xD801, 0xDBFF, 0xDC00, 0xDFFE, 0xDFFF, 0xE000, 0xE001, 0xFFFF, 0x10000,
+            0x10FFFE, 0x10FFFF, 0x110000, 0x110001, 0x11D7FF, 0x11D800, 0x11DFFF, 0x11E000, 0x1FFFFF, 0x200000, 0x00FF_FFFF, 0x0100_0000,
+            0x7FFF_FFFF, 0x8000_0000, 0x8000_0041, 0xFFFF_FFFE, 0xFFFF_FFFF] { v.push(c.to_le_bytes().to_vec()); }
+  let mut x: u64 = 0x1234_5678_9ABC_DEF1;
+  for _ in 0..200 { x ^= x << 13; x ^= x >> 7; x ^= x << 17; v.push(((x >> 16) as u32 & 0x3F_FFFF).to_le_bytes().to_vec()); }
+  v
+}
+fn nz_bounds(n: usize) -> Vec<Vec<u8>> {
+  let mut v = vec![vec![0u8; n], vec![0xFFu8; n]];
+  for i in 0..n { let mut a = vec![0u8; n]; a[i] = 1; v.push(a.clone()); a[i] = 0x80; v.push(a); }
+  let mut mx = vec![0xFFu8; n]; mx[n - 1] = 0x7F; v.push(mx);
+  v
+}
+pub fn run_prims(thorough: bool) {
+  run_prim_value::<u8, i8>(true); run_prim_value::<i8, u8>(true); run_prim_value::<u8, [u8; 2]>(true);
+  run_prim_value::<u16, i16>(true); run_prim_value::<u16, [u8; 2]>(true); run_prim_value::<[u8; 2], i16>(true); run_prim_value::<u16, u32>(thorough);
+  run_prim_value::<u32, f32>(false); run_prim_value::<f32, u32>(false); run_prim_value::<f32, [u8; 4]>(false); run_prim_value::<f32, i32>(false);
+  run_prim_value::<f32, [u16; 2]>(false); run_prim_value::<f32, f64>(false);
+  run_prim_value::<u64, f64>(false); run_prim_value::<f64, u64>(false); run_prim_value::<f64, [u8; 8]>(false); run_prim_value::<f64, [u32; 2]>(false);
+  run_prim_value::<u128, i128>(false); run_prim_value::<u128, [u8; 16]>(false); run_prim_value::<i128, f64>(false);
+  run_prim_checked::<u8, bool>(all8()); run_prim_checked::<u8, core::num::NonZeroU8>(all8()); run_prim_checked::<i8, core::num::NonZeroI8>(all8());
+  run_prim_checked::<u16, core::num::NonZeroU16>(all16()); run_prim_checked::<i16, core::num::NonZeroI16>(all16());
+  run_prim_checked::<u32, char>(char_bounds()); run_prim_checked::<[u8; 4], char>(char_bounds());
+  run_prim_checked::<u32, core::num::NonZeroU32>(nz_bounds(4)); run_prim_checked::<i32, core::num::NonZeroI32>(nz_bounds(4));
+  run_prim_checked::<u64, core::num::NonZeroU64>(nz_bounds(8)); run_prim_checked::<i64, core::num::NonZeroI64>(nz_bounds(8));
+  run_prim_checked::<u128, core::num::NonZeroU128>(nz_bounds(16)); run_prim_checked::<i128, core::num::NonZeroI128>(nz_bounds(16));
+  run_prim_checked::<u64, core::num::NonZeroUsize>(nz_bounds(8)); run_prim_checked::<i64, core::num::NonZeroIsize>(nz_bounds(8));
+  run_prim_checked::<u16, bool>(vec![vec![1, 0]]);
+}
+
+// ---- must_ casts (feature mustrun): only instantiated for the pairs the compile-verdict run accepted ----
+#[cfg(feature = "mustrun")]
+pub mod mustrun {
+  use super::*;
+  #[inline(never)]
+  pub fn must_slices<A: GP, B: G>(maxlen: usize) {
+    let (sa, aa, sb, ab) = (A::SZ, A::AL, B::SZ, B::AL);
+    for r in residues(aa) {
+      for len in 0..=maxlen {
+        let off = SRC0 + r; let nbytes = len * sa; let addr = BASE + off;
+        let p = unsafe { ar().add(off) };
+        macro_rules! shared { () => { unsafe { core::slice::from_raw_parts(p as *const A, len) } } }
+        macro_rules! muts { () => { unsafe { core::slice::from_raw_parts_mut(p as *mut A, len) } } }
+        fill();
+        let t1 = so(bytemuck::try_cast_slice::<A, B>(shared!()).map_err(pe));
+        let o = so::<B>(Ok(bytemuck::must_cast_slice::<A, B>(shared!())));
+        emit(43, sa, aa, sb, ab, len, addr, 0, "-", &o, &t1, ro_flags());
+        fill();
+        let (t2, _) = smo(bytemuck::try_cast_slice_mut::<A, B>(muts!()).map_err(pe), off, nbytes);
+        fill();
+        let (o, f) = smo::<B>(Ok(bytemuck::must_cast_slice_mut::<A, B>(muts!())), off, nbytes);
+        emit(44, sa, aa, sb, ab, len, addr, 0, "-", &o, &t2, f);
+      }
+    }
+  }
+  // const context: the must_ cast was evaluated by the compiler (see mustpairs.rs)
+  pub fn const_slice<A: GP, B: G>(src: &'static [A], dst: &'static [B]) {
+    let t = so(bytemuck::try_cast_slice::<A, B>(src).map_err(pe));
+    emit(43, A::SZ, A::AL, B::SZ, B::AL, src.len(), canon(src.as_ptr()), 0, "-", &so::<B>(Ok(dst)), &t, 3);
+  }
+  pub fn const_ref<A: GP, B: G>(src: &'static A, dst: &'static B) {
+    let t = ro(bytemuck::try_cast_ref::<A, B>(src).map_err(pe));
+    emit(41, A::SZ, A::AL, B::SZ, B::AL, 1, canon(src as *const A), 0, "-", &ro::<B>(Ok(dst)), &t, 3);
+  }
+  pub fn const_value<A: GP, B: G>(a: A, b: B) {
+    let t = match bytemuck::try_cast::<A, B>(a) { Ok(b) => format!("VAL {}", hexs(bytemuck::bytes_of(&b))), Err(e) => format!("ERR {}", pe(e)) };
+    emit(45, A::SZ, A::AL, B::SZ, B::AL, 1, BASE, 0, &hexs(bytemuck::bytes_of(&a)), &format!("VAL {}", hexs(bytemuck::bytes_of(&b))), &t, 3);
+  }
+  #[inline(never)]
+  pub fn must_refs<A: GP, B: G>() {
+    let (sa, aa, sb, ab) = (A::SZ, A::AL, B::SZ, B::AL);
+    for r in residues(aa) {
+      let off = SRC0 + r; let addr = BASE + off;
+      let p = unsafe { ar().add(off) };
+      fill();
+      let t5 = ro(bytemuck::try_cast_ref::<A, B>(unsafe { &*(p as *const A) }).map_err(pe));
+      let o = ro::<B>(Ok(bytemuck::must_cast_ref::<A, B>(unsafe { &*(p as *const A) })));
+      emit(41, sa, aa, sb, ab, 1, addr, 0, "-", &o, &t5, ro_flags());
+      fill();
+      let (t6, _) = rmo(bytemuck::try_cast_mut::<A, B>(unsafe { &mut *(p as *mut A) }).map_err(pe), off, sa);
+      fill();
+      let (o, f) = rmo::<B>(Ok(bytemuck::must_cast_mut::<A, B>(unsafe { &mut *(p as *mut A) })), off, sa);
+      emit(42, sa, aa, sb, ab, 1, addr, 0, "-", &o, &t6, f);
+    }
+  }
+  #[inline(never)]
+  pub fn must_values<A: GP, B: G>() {
+    let (sa, aa, sb, ab) = (A::SZ, A::AL, B::SZ, B::AL);
+    for seed in 0..2usize {
+      let pat = pattern(seed, sa);
+      let a: A = if sa == 0 { A::zeroed() } else { unsafe { core::ptr::read_unaligned(pat.as_ptr() as *const A) } };
+      let hx = hexs(&pat);
+      let t = match bytemuck::try_cast::<A, B>(a) { Ok(b) => format!("VAL {}", hexs(bytemuck::bytes_of(&b))), Err(e) => format!("ERR {}", pe(e)) };
+      let b: B = bytemuck::must_cast::<A, B>(a);
+      emit(45, sa, aa, sb, ab, 1, BASE, 0, &hx, &format!("VAL {}", hexs(bytemuck::bytes_of(&b))), &t, 3);
+    }
+  }
+}
+#[cfg(feature = "mustrun")]
+mod mustpairs;
+
 #[derive(Clone, Copy)]
 #[repr(transparent)]
 pub struct U8(u8);
@@ -368,13 +674,20 @@ fn main() {
     CFG = cfg;
     OUT = Some(std::io::BufWriter::with_capacity(1 << 20, std::io::stdout()));
   }
-  types::run_all(maxlen);
+  let mode = args.get(3).map(|s| s.as_str()).unwrap_or("all");
+  if mode == "must" {
+    #[cfg(feature = "mustrun")]
+    mustpairs::run_must(maxlen);
+  } else {
+    types::run_all(maxlen);
+    run_prims(maxlen > 6);
+  }
   unsafe { OUT.as_mut().unwrap().flush().unwrap(); }
 }
 '''
 
 
-def gen(out, tier):
+def gen(out, tier, pairs_file=None):
     types = QUICK_TYPES if tier == "quick" else all_types()
     os.makedirs(os.path.join(out, "src"), exist_ok=True)
     with open(os.path.join(out, "Cargo.toml"), "w") as f:
@@ -396,6 +709,7 @@ extern_crate_std = ["bytemuck/extern_crate_std"]
 min_const_generics = ["bytemuck/min_const_generics"]
 must_cast = ["bytemuck/must_cast"]
 must_cast_extra = ["bytemuck/must_cast_extra"]
+mustrun = ["bytemuck/must_cast", "bytemuck/must_cast_extra"]
 all_stable = ["bytemuck/latest_stable_rust", "bytemuck/extern_crate_alloc", "bytemuck/extern_crate_std"]
 
 [profile.dev]
@@ -417,6 +731,7 @@ incremental = false
         t.append("#[derive(Clone, Copy)] #[repr(C, align(%d))] pub struct %s([u8; %d]);" % (a, n, s))
         t.append("unsafe impl Zeroable for %s {} unsafe impl Pod for %s {}" % (n, n))
         t.append("impl G for %s { const SZ: usize = %d; const AL: usize = %d; }" % (n, s, a))
+        t.append("impl GP for %s { const PAT: Self = %s([%s]); }" % (n, n, ", ".join(str((i * 29 + s * 7 + 3) % 256) for i in range(s))))
     t.append("")
     # pair runners are split into chunks so that rustc can codegen them in parallel units
     t.append("pub fn run_all(maxlen: usize) {")
@@ -424,6 +739,15 @@ incremental = false
         t.append("  run_single::<%s>();" % tname(s, a))
     for (s, a) in types:
         t.append("  row_%s(maxlen);" % tname(s, a))
+    cks = ["bool", "char", "core::num::NonZeroU8", "core::num::NonZeroI8", "core::num::NonZeroU16", "core::num::NonZeroI16",
+           "core::num::NonZeroU32", "core::num::NonZeroI32", "core::num::NonZeroU64", "core::num::NonZeroI64",
+           "core::num::NonZeroU128", "core::num::NonZeroI128", "core::num::NonZeroUsize", "core::num::NonZeroIsize"]
+    csrc = [(0, 1), (1, 1), (2, 2), (3, 1), (4, 1), (4, 4), (8, 8), (16, 16), (12, 4), (6, 2)]
+    for c in cks:
+        t.append("  run_checked_single::<%s>();" % c)
+    for (s, a) in csrc:
+        for c in cks:
+            t.append("  run_checked::<%s, %s>(maxlen.min(6));" % (tname(s, a), c))
     t.append("}")
     for (s, a) in types:
         t.append("#[inline(never)] fn row_%s(maxlen: usize) {" % tname(s, a))
@@ -433,7 +757,29 @@ incremental = false
         t.append("}")
     with open(os.path.join(out, "src", "types.rs"), "w") as f:
         f.write("\n".join(t) + "\n")
+    # must_ runs: exactly the instantiations the compile-verdict run accepted (file of "fn sa aa sb ab" lines)
+    m = ["use super::*;", "use super::mustrun::*;", "pub fn run_must(maxlen: usize) {"]
+    if pairs_file and os.path.exists(pairs_file):
+        acc = {}
+        for line in open(pairs_file):
+            w = line.split()
+            if len(w) == 5:
+                acc.setdefault((int(w[1]), int(w[2]), int(w[3]), int(w[4])), set()).add(int(w[0]))
+        for (sa, aa, sb, ab), fns in sorted(acc.items()):
+            A, B = tname(sa, aa), tname(sb, ab)
+            if {141, 142} <= fns:
+                m.append("  must_refs::<%s, %s>();" % (A, B))
+                m.append("  { const S: &%s = &<%s as GP>::PAT; const D: &%s = bytemuck::must_cast_ref::<%s, %s>(S); const_ref::<%s, %s>(S, D); }" % (A, A, B, A, B, A, B))
+            if {143, 144} <= fns:
+                m.append("  must_slices::<%s, %s>(maxlen);" % (A, B))
+                m.append("  { const S: &[%s] = &[<%s as GP>::PAT; 3]; const D: &[%s] = bytemuck::must_cast_slice::<%s, %s>(S); const_slice::<%s, %s>(S, D); }" % (A, A, B, A, B, A, B))
+            if 145 in fns:
+                m.append("  must_values::<%s, %s>();" % (A, B))
+                m.append("  { const S: %s = <%s as GP>::PAT; const D: %s = bytemuck::must_cast::<%s, %s>(S); const_value::<%s, %s>(S, D); }" % (A, A, B, A, B, A, B))
+    m.append("}")
+    with open(os.path.join(out, "src", "mustpairs.rs"), "w") as f:
+        f.write("\n".join(m) + "\n")
 
 
 if __name__ == "__main__":
-    gen(sys.argv[1], sys.argv[2])
+    gen(sys.argv[1], sys.argv[2], sys.argv[3] if len(sys.argv) > 3 else None)
